@@ -12,75 +12,91 @@
     8    positioned descendants with z-index auto (painted like floats in 5) and child contexts with
          z-index 0 (incl. opacity/transform/overflow contexts), all in tree order;
     9    child contexts with positive z-index, smallest first, ties in tree order;
-    10   outline.
+    10   outlines of the box and of its in-flow descendants (E.2 step 10, the recommended place).
+
+  Groups ("opacity, transforms and overflow clipping apply to the whole sub-tree of the box that declares
+  them"; CSS Color 3: the element and its descendants are rendered into an offscreen image which is
+  then blended; CSS 2.1 11.1.1: overflow clips the content, not the box's own border/background, and
+  outlines are not clipped by the box's own overflow):
+    group-open … group-close around everything the box paints (outlines included),
+    xform-open … xform-close likewise, inside the opacity group,
+    clip-open … clip-close around steps 3-9 only.
 -/
 import WR.C16.Model
 namespace WR.C16
 
-/-- is the box an ordinary in-flow block of the enclosing (pseudo-)context? -/
-def Box.inFlow (b : Box) : Bool := !b.makesContext && !b.positioned && !b.floated && !b.inlineBlock
+/-- is the box an ordinary in-flow box of the enclosing (pseudo-)context? -/
+def BProps.inFlow (p : BProps) : Bool := !p.makesContext && !p.positioned && !p.floated && !p.inlineBlock
 
 /-- CSS 2.1 9.9.1: z-index applies to positioned boxes only; a non-positioned box that forms a context
     (opacity, transform, overflow) is painted at layer 8 like z-index 0 -/
-def Box.specZ (b : Box) : Int := if b.positioned then b.z.getD 0 else 0
+def BProps.specZ (p : BProps) : Int := if p.positioned then p.z.getD 0 else 0
+
+/-- one (pseudo-)context, from its layers -/
+def layers (id : Nat) (pr : BProps) (parts : List CCtx) (blocks : List Nat) (floats : List (List PEv))
+    (lines inflow : List Nat) : List PEv :=
+  (if pr.opacity then [(id, Layer.groupOpen)] else [])
+  ++ (if pr.transform then [(id, Layer.xformOpen)] else [])
+  ++ (if pr.blockLevel || pr.inlineBlock then [(id, Layer.background), (id, Layer.border)] else [])
+  ++ (if pr.overflow then [(id, Layer.clipOpen)] else [])
+  ++ ((sortZ (parts.filter (·.1 < 0))).flatMap (·.2))
+  ++ (blocks.flatMap fun b => [(b, Layer.background), (b, Layer.border)])
+  ++ floats.flatten
+  ++ (((if pr.hasLines then [id] else []) ++ lines).map fun b => (b, Layer.content))
+  ++ ((parts.filter (·.1 == 0)).flatMap (·.2))
+  ++ ((sortZ (parts.filter (·.1 > 0))).flatMap (·.2))
+  ++ (if pr.overflow then [(id, Layer.clipClose)] else [])
+  ++ ((id :: inflow).map fun b => (b, Layer.outline))
+  ++ (if pr.transform then [(id, Layer.xformClose)] else [])
+  ++ (if pr.opacity then [(id, Layer.groupClose)] else [])
 
 mutual
   /-- a real stacking context -/
   def specReal : Box → List PEv
-    | .mk id p z f c bl ib hl children =>
-      let parts := participants children
-      (if bl || ib then [(id, Layer.background), (id, Layer.border)] else [])
-      ++ ((sortZ (parts.filter (·.1 < 0))).flatMap (·.2))
-      ++ ((flowBlocks children).flatMap fun b => [(b, Layer.background), (b, Layer.border)])
-      ++ (floatsOf children).flatten
-      ++ (((if hl then [id] else []) ++ flowLines children).map fun b => (b, Layer.content))
-      ++ ((parts.filter (·.1 == 0)).flatMap (·.2))
-      ++ ((sortZ (parts.filter (·.1 > 0))).flatMap (·.2))
-      ++ [(id, .outline)]
+    | .mk id pr children =>
+      layers id pr (participants children) (flowBlocks children) (floatsOf children) (flowLines children) (flowAll children)
 
   /-- a float or a positioned box with z-index auto: "as if it created a new stacking context, but any
       positioned descendants and descendants which actually create a new stacking context are part of
       the parent stacking context" -/
   def specPseudo : Box → List PEv
-    | .mk id p z f c bl ib hl children =>
-      (if bl || ib then [(id, Layer.background), (id, Layer.border)] else [])
-      ++ ((flowBlocks children).flatMap fun b => [(b, Layer.background), (b, Layer.border)])
-      ++ (floatsOf children).flatten
-      ++ (((if hl then [id] else []) ++ flowLines children).map fun b => (b, Layer.content))
-      ++ [(id, .outline)]
+    | .mk id pr children =>
+      layers id pr [] (flowBlocks children) (floatsOf children) (flowLines children) (flowAll children)
 
   /-- steps 3/8/9: the descendants that take part in the z-ordering of the enclosing real context, in tree order -/
   def participants : List Box → List CCtx
     | [] => []
-    | .mk id p z f c bl ib hl children :: rest =>
-      let b := Box.mk id p z f c bl ib hl children
-      (if b.makesContext then [(b.specZ, specReal b)]
-       else if p then (0, specPseudo b) :: participants children
+    | .mk id pr children :: rest =>
+      (if pr.makesContext then [(pr.specZ, specReal (.mk id pr children))]
+       else if pr.positioned then (0, specPseudo (.mk id pr children)) :: participants children
        else participants children)
       ++ participants rest
 
   /-- step 4 -/
   def flowBlocks : List Box → List Nat
     | [] => []
-    | .mk id p z f c bl ib hl children :: rest =>
-      let b := Box.mk id p z f c bl ib hl children
-      (if b.inFlow then (if bl then [id] else []) ++ flowBlocks children else []) ++ flowBlocks rest
+    | .mk id pr children :: rest =>
+      (if pr.inFlow then (if pr.blockLevel then [id] else []) ++ flowBlocks children else []) ++ flowBlocks rest
 
   /-- step 5 -/
   def floatsOf : List Box → List (List PEv)
     | [] => []
-    | .mk id p z f c bl ib hl children :: rest =>
-      let b := Box.mk id p z f c bl ib hl children
-      (if b.inFlow then floatsOf children
-       else if !b.makesContext && !p && f then [specPseudo b]
+    | .mk id pr children :: rest =>
+      (if pr.inFlow then floatsOf children
+       else if !pr.makesContext && !pr.positioned && pr.floated then [specPseudo (.mk id pr children)]
        else []) ++ floatsOf rest
 
   /-- step 7: in-flow blocks with line boxes -/
   def flowLines : List Box → List Nat
     | [] => []
-    | .mk id p z f c bl ib hl children :: rest =>
-      let b := Box.mk id p z f c bl ib hl children
-      (if b.inFlow then (if bl && hl then [id] else []) ++ flowLines children else []) ++ flowLines rest
+    | .mk id pr children :: rest =>
+      (if pr.inFlow then (if pr.blockLevel && pr.hasLines then [id] else []) ++ flowLines children else []) ++ flowLines rest
+
+  /-- step 10: the in-flow descendants, pre-order -/
+  def flowAll : List Box → List Nat
+    | [] => []
+    | .mk id pr children :: rest =>
+      (if pr.inFlow then id :: flowAll children else []) ++ flowAll rest
 end
 
 /-- the page: the root element's box always forms a stacking context -/
